@@ -1239,6 +1239,10 @@ def scenario_script(i, x, ent, rej=(), attrs=None, flags=None, malformed=(), res
         fl.append("requiregroup 0")
     if flags.get("nosym"):
         fl.append("followsymlinks 0")
+    if flags.get("perms"):
+        # econf_requirePermissions with masks that every file and directory of the scenario satisfies: no effect of its own, but
+        # the other restrictions must keep working next to it
+        fl.append("requireperms 444 555")
 
     def one_read(h):
         c = ["cbreset", "cbrejectk %d" % mask] + shape.call(h, R, cb=use_cb)
@@ -1283,7 +1287,8 @@ def scenario_events(x, ent, out, paths, K, rej=(), attrs=None, flags=None, malfo
     faults = [{"f": list(f), "x": ["reject"]} for f in sorted(rej)] + [{"f": list(f), "x": ["malformed"]} for f in sorted(malformed)] + \
         [{"f": list(f), "x": ["dangling"]} for f in sorted(dangling) if f[1] != 0]
     alist = [{"f": list(f), "own": a[0], "grp": a[1], "link": bool(a[2])} for f, a in sorted((attrs or {}).items())]
-    fl = {"owner": bool((flags or {}).get("owner")), "group": bool((flags or {}).get("group")), "nosym": bool((flags or {}).get("nosym"))}
+    fl = {"owner": bool((flags or {}).get("owner")), "group": bool((flags or {}).get("group")), "nosym": bool((flags or {}).get("nosym")),
+          "perms_satisfied": bool((flags or {}).get("perms"))}
     for n, (j, rd) in enumerate(reads):
         second = n == 1
         events.append({"e": "begin", "main": t["main"], "drop": t["drop"], "shp": t["shp"], "nlay": len(t["main"]),
